@@ -111,6 +111,9 @@ func RenameFields(prog *load.Program) (*load.Program, []string) {
 			missing := map[string][]string{}
 			var typesSeen []string
 			for _, b := range base {
+				if ast.IsExported(b.name) {
+					continue // exported fields are named by gob, by other modules and by generated code: a rename is a change
+				}
 				if cur[b.name] == nil && !taken[b.name] {
 					if len(missing[b.typ]) == 0 {
 						typesSeen = append(typesSeen, b.typ)
@@ -123,7 +126,7 @@ func RenameFields(prog *load.Program) (*load.Program, []string) {
 			}
 			added := map[string][]*types.Var{}
 			for _, f := range order {
-				if !inBase[f.Name()] {
+				if !inBase[f.Name()] && !f.Exported() {
 					ts := fieldTypeString(f.Type())
 					added[ts] = append(added[ts], f)
 				}
@@ -185,6 +188,179 @@ func RenameFields(prog *load.Program) (*load.Program, []string) {
 		files[file] = out
 	}
 	next, err := prog.MutateMany(files, "fields renamed back")
+	if err != nil {
+		return prog, nil
+	}
+	next.Mutation = prog.Mutation
+	return next, desc
+}
+
+// Function renames, by the same argument: a function or method of the pinned tree that is gone, and a new one declared on
+// the same receiver type with the identical signature, one of each - the new one is spelled with the pinned name again
+// (declaration and every resolved reference). Anything less certain is left to the helper inliner.
+
+//go:embed baseline_funcsigs.txt
+var baselineFuncSigsText string
+
+var baselineFuncSigs = func() map[string]string {
+	m := map[string]string{}
+	for _, l := range strings.Split(baselineFuncSigsText, "\n") {
+		parts := strings.SplitN(l, "\t", 2)
+		if len(parts) == 2 {
+			m[parts[0]] = parts[1]
+		}
+	}
+	return m
+}()
+
+func funcSigString(f *types.Func) string {
+	sig := f.Type().(*types.Signature)
+	// without the receiver
+	return fieldTypeString(types.NewSignatureType(nil, nil, nil, sig.Params(), sig.Results(), sig.Variadic()))
+}
+
+// FuncSigLines lists key and signature of every declared function (used to regenerate the baseline).
+func FuncSigLines(prog *load.Program) []string {
+	var out []string
+	for _, pk := range prog.Sorted() {
+		for _, f := range pk.Files {
+			for _, d := range f.Decls {
+				fd, ok := d.(*ast.FuncDecl)
+				if !ok {
+					continue
+				}
+				if obj, _ := pk.Info.Defs[fd.Name].(*types.Func); obj != nil {
+					out = append(out, FuncKey(pk.Path, fd)+"\t"+funcSigString(obj))
+				}
+			}
+		}
+	}
+	sort.Strings(out)
+	return out
+}
+
+// RenameFuncs returns prog with renamed functions spelled by their pinned names, and the renames undone.
+func RenameFuncs(prog *load.Program) (*load.Program, []string) {
+	ren := map[*types.Func]string{}
+	var desc []string
+	for _, pk := range prog.Sorted() {
+		type decl struct {
+			key, prefix, sig string
+			obj              *types.Func
+			name             string
+		}
+		present := map[string]bool{}
+		var added []decl
+		for _, f := range pk.Files {
+			for _, d := range f.Decls {
+				fd, ok := d.(*ast.FuncDecl)
+				if !ok {
+					continue
+				}
+				key := FuncKey(pk.Path, fd)
+				present[key] = true
+				if baseline[key] {
+					continue
+				}
+				obj, _ := pk.Info.Defs[fd.Name].(*types.Func)
+				if obj == nil || fd.Name.Name == "init" || fd.Name.Name == "_" || ast.IsExported(fd.Name.Name) {
+					continue // an exported name is a contract with code outside the tree (the compiler emits calls by name)
+				}
+				added = append(added, decl{key: key, prefix: strings.TrimSuffix(key, fd.Name.Name), sig: funcSigString(obj), obj: obj, name: fd.Name.Name})
+			}
+		}
+		if len(added) == 0 {
+			continue
+		}
+		// missing pinned functions of this package
+		type miss struct{ key, prefix, sig, name string }
+		var missing []miss
+		for key, sig := range baselineFuncSigs {
+			if !strings.HasPrefix(key, pk.Path+".") || present[key] {
+				continue
+			}
+			rest := strings.TrimPrefix(key, pk.Path+".")
+			if strings.Contains(rest, "/") {
+				continue // a sub-package's function
+			}
+			name := rest
+			if i := strings.LastIndex(rest, "."); i >= 0 {
+				name = rest[i+1:]
+			}
+			if ast.IsExported(name) {
+				continue
+			}
+			missing = append(missing, miss{key: key, prefix: strings.TrimSuffix(key, name), sig: sig, name: name})
+		}
+		sort.Slice(missing, func(i, j int) bool { return missing[i].key < missing[j].key })
+		for _, m := range missing {
+			var cands []decl
+			for _, a := range added {
+				if a.prefix == m.prefix && a.sig == m.sig {
+					cands = append(cands, a)
+				}
+			}
+			if len(cands) != 1 {
+				continue
+			}
+			// ... and the candidate fits no other missing function
+			fits := 0
+			for _, m2 := range missing {
+				if m2.prefix == cands[0].prefix && m2.sig == cands[0].sig {
+					fits++
+				}
+			}
+			if fits != 1 {
+				continue
+			}
+			ren[cands[0].obj] = m.name
+			desc = append(desc, fmt.Sprintf("%s -> %s", cands[0].key, m.name))
+		}
+	}
+	if len(ren) == 0 {
+		return prog, nil
+	}
+	sort.Strings(desc)
+	edits := map[string][]edit{}
+	for _, pk := range prog.Sorted() {
+		for i, f := range pk.Files {
+			name := pk.FileNames[i]
+			tf := prog.Fset.File(f.Pos())
+			ast.Inspect(f, func(n ast.Node) bool {
+				id, ok := n.(*ast.Ident)
+				if !ok {
+					return true
+				}
+				var obj types.Object = pk.Info.Uses[id]
+				if obj == nil {
+					obj = pk.Info.Defs[id]
+				}
+				fn, ok := obj.(*types.Func)
+				if !ok {
+					return true
+				}
+				if to, ok := ren[fn.Origin()]; ok {
+					s := tf.Offset(id.Pos())
+					edits[name] = append(edits[name], edit{s, s + len(id.Name), to})
+				}
+				return true
+			})
+		}
+	}
+	files := map[string][]byte{}
+	for file, es := range edits {
+		src, err := prog.ReadFile(file)
+		if err != nil {
+			return prog, nil
+		}
+		sort.Slice(es, func(i, j int) bool { return es[i].start > es[j].start })
+		out := append([]byte(nil), src...)
+		for _, e := range es {
+			out = append(out[:e.start], append([]byte(e.text), out[e.end:]...)...)
+		}
+		files[file] = out
+	}
+	next, err := prog.MutateMany(files, "functions renamed back")
 	if err != nil {
 		return prog, nil
 	}
